@@ -242,7 +242,10 @@ def check(rec, kind, idx, rng, tier):
         m = rng.random((H, W)) < 0.1
         img[m] = rng.choice([np.nan, np.inf, -np.inf], size=(H, W))[m]
     tvals = None
-    if rng.random() < 0.35:
+    if rng.random() < 0.1 and layout == 'random':
+        img = np.where(rng.random((H, W)) < 0.08, 0, rng.integers(1, 5, (H, W))).astype(img.dtype)
+        tvals = [0.0]; rec.cls('zero_as_explicit_target')
+    elif rng.random() < 0.35:
         tvals = [float(v) for v in rng.choice([0, 1, 2, 3, 4, 9], size=int(rng.integers(1, 4)), replace=False)]
         if vclass != 'small':
             present = np.unique(img[(img != 0) & np.isfinite(img.astype('float64'))])
